@@ -37,6 +37,14 @@ impl Client {
         }
 
         let full_url = req.uri().to_string();
+        // the previous response may have just been delivered while the connection task has not yet
+        // become ready for the next request; sending now would fail with "operation was canceled"
+        self.sender.ready().await.map_err(|e| {
+            Error::Hyper(HyperErrorType::Custom(
+                format!("Failed to send request to {}", full_url),
+                e,
+            ))
+        })?;
         self.sender.send_request(req).await.map_err(|e| {
             Error::Hyper(HyperErrorType::Custom(
                 format!("Failed to send request to {}", full_url),
